@@ -177,7 +177,7 @@ func newWorld(c *rig.Ctx, src, lyc uint8) *world {
 var onValue uint8 = 0x91
 
 func run(c *rig.Ctx) {
-	c.Require("cycles", "vblank_expected", "stat_expected_hblank", "stat_expected_vblank", "stat_expected_oam", "stat_expected_lyc", "runs_source_none", "switch_offs")
+	c.Require("cycles", "vblank_expected", "stat_expected_hblank", "stat_expected_vblank", "stat_expected_oam", "stat_expected_lyc", "runs_source_none", "switch_offs", "neutral_register_writes")
 	srcs := []uint8{srcNone, srcHBlank, srcVBlank, srcOAM, srcLYC}
 	var lycs []uint8
 	for v := 0; v < 154; v++ {
@@ -229,6 +229,18 @@ func run(c *rig.Ctx) {
 				}
 				w.lcdc(v)
 				next = w.t + 1 + int64(r.PickInt([]int{1, 3, 113, 114, 115, 2000, 17556, 30000}))*int64(1+r.Intn(2))/2
+			}
+			// stores that change nothing the conditions depend on: the same constant LYC again,
+			// anything to the read-only LY, scroll/window/palette registers
+			if i%2 == 1 && r.Chance(1, 400) {
+				a := r.Pick16([]uint16{0xff45, 0xff45, 0xff45, 0xff44, 0xff44, 0xff42, 0xff43, 0xff4a, 0xff4b, 0xff47})
+				v := r.U8()
+				if a == 0xff45 {
+					v = lyc
+				}
+				w.m.Mem.Write(a, v)
+				w.log(fmt.Sprintf("%04X<-%02X", a, v))
+				c.Count("neutral_register_writes", 1)
 			}
 			if !w.tick() {
 				return
